@@ -138,6 +138,12 @@ Inductive proc :=
 | PQuery (m : list nat) (limit : nat) (failat : option nat)
 | PTrunc (m zero szpos : list nat) (glob : bool) (cancel : option nat).
 
+(* The one place where the model follows a choice of the code under repair: does GetJournals
+   release the partition whose journal failed to open (proposed_fixes/C14-getjournals-leak.diff)?
+   false = the code as it is.  Flip to true when the fix is applied; every proof in
+   proofs/TIndexP.v and props/C14.v is written for both values. *)
+Definition gj_releases_failed : bool := false.
+
 Inductive djst := DjLock | DjSize | DjUnlockSz | DjDelete | DjUnlock2.
 
 Inductive ctl :=
@@ -155,7 +161,8 @@ Inductive ctl :=
 | CGNext
 | CGAcq (x : nat)
 | CGCb (x : nat)
-| CGRel (x : nat).
+| CGRel (x : nat)
+| CRelF (x : nat).     (* GetJournals (repaired) releasing the partition whose journal failed to open *)
 
 (* local variables of a visit: vstd entries not yet reached, entries visited, GetJournals' res,
    Truncate's sortedInfos, number of callbacks made, error flag *)
@@ -174,6 +181,7 @@ Definition p_m (p : proc) : list nat :=
 Definition is_visit (p : proc) : bool :=
   match p with PVisit _ _ _ _ | PQuery _ _ _ | PTrunc _ _ _ _ _ => true | _ => false end.
 Definition is_trunc (p : proc) : bool := match p with PTrunc _ _ _ _ _ => true | _ => false end.
+Definition is_query (p : proc) : bool := match p with PQuery _ _ _ => true | _ => false end.
 
 Fixpoint remove1 (x : nat) (l : list nat) : list nat :=
   match l with [] => [] | y :: t => if Nat.eqb x y then t else y :: remove1 x t end.
@@ -253,8 +261,9 @@ Definition callback (ix : tix) (a : actor) (x : nat) : actor :=
   | PVisit _ _ _ abort => with_cf a (if opt_is abort (f_n f) then CFin else CNext) (f_count f)
   | PQuery _ limit failat =>
       if opt_is failat (f_n f)
-      then (* Journals.GetOrCreate failed: x is neither in res nor released *)
-        {| a_prog := a_prog a; a_cur := a_cur a; a_ctl := CFin; a_f := f_fail f; a_lost := a_lost a ++ [x] |}
+      then (* Journals.GetOrCreate failed: x is neither in res nor released (unless repaired) *)
+        if gj_releases_failed then with_cf a (CRelF x) (f_fail f)
+        else {| a_prog := a_prog a; a_cur := a_cur a; a_ctl := CFin; a_f := f_fail f; a_lost := a_lost a ++ [x] |}
       else if Nat.eqb (S (length (f_res f))) limit
            then with_cf a CFin (f_keep f x true)
            else with_cf a CNext (f_keep f x false)
@@ -354,6 +363,11 @@ Definition astep (ix : tix) (a : actor) (c : nat) : tix * actor * bool * sres :=
       | Some ix' => (ix', with_ctl a CGNext, false, Moved)
       | None => (ix, with_ctl a CGNext, true, Moved)
       end
+  | CRelF x =>
+      match release ix x with
+      | Some ix' => (ix', with_ctl a CFin, false, Moved)
+      | None => (ix, with_ctl a CFin, true, Moved)
+      end
   end.
 
 (* ------------------------------------------------------------------ the system *)
@@ -391,7 +405,7 @@ Definition vis_held (a : actor) : list nat :=
   let f := a_f a in
   match a_cur a with
   | PVisit skip _ _ _ => if skip then f_vis f ++ f_rest f else f_vis f
-  | PQuery _ _ _ => f_res f ++ (match a_ctl a with CCb x => [x] | _ => [] end)
+  | PQuery _ _ _ => f_res f ++ (match a_ctl a with CCb x | CRelF x => [x] | _ => [] end)
   | PTrunc _ _ _ _ _ => f_vis f ++ f_rest f
   | _ => []
   end.
@@ -401,7 +415,7 @@ Definition held (a : actor) : list nat :=
   a_lost a ++
   match a_ctl a with
   | CHold l | CRel l => l
-  | CNext | CTry _ | CCb _ | CFin => vis_held a
+  | CNext | CTry _ | CCb _ | CFin | CRelF _ => vis_held a
   | CDj x _ false => vis_held a
   | CDj x _ true | CGCb x | CGRel x => [x]
   | _ => []
